@@ -44,7 +44,7 @@ OCT_IN = [0, 255]
 GROUPS = [0, 1, 0x2001, 0xFFFF]
 TIER = {"thorough": False}
 RESTS = ["", "/", "/a?b=c"]
-ALPHABET = ["a", "1", "/", "?", "#", "%", "@", ":", " ", "é"]
+ALPHABET = ["a", "1", "/", "?", "#", "%", "@", ":", ";", " ", "é"]
 KINDS = ["h1-host", "h1-nohost", "h1-absolute", "h2-authority"]
 HOST_MENU = ["example.com", "EXAMPLE.Com.", "xn--bcher-kva.example", "127.0.0.1", "[::1]", "[2001:DB8::1]"]
 
@@ -100,6 +100,15 @@ def _valid_rest(rest):
     return all(c in urlref._REST_OK for c in rest)
 
 
+def _dangling_semicolon(ref_path, got_path):
+    """True iff got_path is ref_path minus a single ';' that ends the last path segment with nothing after it
+    (an EMPTY params component: urlparse/urlunparse drop the bare delimiter) -- a known, separate finding"""
+    cut = min([i for i in (ref_path.find("?"), ref_path.find("#")) if i >= 0] or [len(ref_path)])
+    head, tail = ref_path[:cut], ref_path[cut:]
+    last = head.rsplit("/", 1)[-1]
+    return head.endswith(";") and last.count(";") == 1 and head[:-1] + tail == got_path
+
+
 def _judge_url_roundtrip(X, r, u, cls, valid, tag):
     """r.url = u ; v = r.url ; equivalence, component consistency, idempotence"""
     try:
@@ -124,6 +133,8 @@ def _judge_url_roundtrip(X, r, u, cls, valid, tag):
         X.fail(f"C33/{tag}/getter-output-not-a-url/{cls}", f"r.url = {u!r}; r.url reads {v!r}, which is not a valid URL ({e})")
     for i, comp in enumerate(("scheme", "host", "port", "path")):
         key = "C33/url-port-zero-becomes-default" if comp == "port" and ref[2] == 0 else f"C33/{tag}/not-equivalent/{comp}/{cls}"
+        if comp == "path" and refv[i] != ref[i] and _dangling_semicolon(ref[i], refv[i]):
+            key = f"C33/{tag}/empty-params-delimiter-lost"
         X.check(refv[i] == ref[i], key, f"r.url = {u!r}; r.url reads {v!r}: {comp} {refv[i]!r} != {ref[i]!r}")
     # attributes agree with v
     X.check(r.scheme == refv[0], f"C33/{tag}/attr/scheme", f"scheme {r.scheme!r} vs url {v!r}")
@@ -290,14 +301,15 @@ def h_parse_unparse(X, n):
     except (urlref.Invalid, UnicodeDecodeError):
         hk = None
     X.check(hk == ref[1], f"C33/parse/host/{cls}", f"url.parse({arg!r}) -> host {h!r}")
-    X.check(urlref.norm_rest(pa.decode("ascii", "replace")) == ref[3], f"C33/parse/path-not-equivalent{nonascii}",
+    _got = urlref.norm_rest(pa.decode("ascii", "replace"))
+    X.check(_got == ref[3], "C33/parse/empty-params-delimiter-lost" if _dangling_semicolon(ref[3], _got) else f"C33/parse/path-not-equivalent{nonascii}",
             f"url.parse({arg!r}) -> path {pa!r}; reference {ref[3]!r}")
     back = url.unparse(sc, h, po, pa)
     try:
         nb = urlref.norm(back.decode("ascii"))
     except (urlref.Invalid, UnicodeDecodeError) as e:
         X.fail(f"C33/parse/unparse-not-a-url/{cls}", f"unparse(*parse({arg!r})) = {back!r}: {e}")
-    X.check(nb == ref, f"C33/parse/unparse-not-equivalent/{cls}", f"unparse(*parse({arg!r})) = {back!r}")
+    X.check(nb == ref, "C33/parse/empty-params-delimiter-lost" if (nb[:3] == ref[:3] and _dangling_semicolon(ref[3], nb[3])) else f"C33/parse/unparse-not-equivalent/{cls}", f"unparse(*parse({arg!r})) = {back!r}")
     try:
         again = url.parse(back)
     except ValueError as e:
